@@ -161,6 +161,16 @@ func genC06(t *rapid.T) C06Case {
 					}
 				}
 				lab["exclude-file-defines-w-itself"] = true
+				if len(excl) >= 2 {
+					// the next exclude file uses `w` without defining it: there the include file's value applies
+					for _, dir := range []string{"exclude/", "include/"} {
+						k := dir + strings.TrimSuffix(excl[1], ".ra") + ".ra"
+						if l, ok := p.Files[k]; ok {
+							p.Files[k] = append(l, ragen.Line{K: ragen.KEntry, T: "tool{{w}}"})
+						}
+					}
+					lab["later-exclude-file-uses-w-without-defining-it"] = true
+				}
 			}
 		}
 		main = append(main, ragen.Line{K: ragen.KExcept, File: "g", Excl: excl})
